@@ -268,7 +268,7 @@ Print Assumptions c04_flow_nonvacuous.
     proofs/Gen_equiv_frag.v proves them equal to the statement's formulas for all arguments and to what the model computes.
     A cap, an off-by-one or a weakened guard in the Rust source breaks these obligations. *)
 From Hoot Require Import Gen.
-From Hoot.proofs Require Import Gen_equiv_frag.
+From Hoot.proofs Require Import Gen_equiv_frag_c04.
 Theorem c04_code_write_size : forall avail input_len left,
   gen_sized_write_n avail input_len left = N.min (N.min avail input_len) left.
 Proof. exact gen_sized_write_n_spec. Qed.
@@ -321,7 +321,7 @@ Print Assumptions c04_code_left_usize.
     exactly min(output room, input, remaining) bytes, verbatim, appends them to what was written, counts the remaining length down by
     that and is ended exactly when it reaches zero; the [assert!(success)] of the Rust function cannot fire.  Trusted: the translator. *)
 From Hoot Require Import GenLib Gen2.
-From Hoot.proofs Require Import Gen2_equiv_body Gen2_transport.
+From Hoot.proofs Require Import Gen2_equiv_rel Gen2_equiv_writer Gen2_transport_write.
 Theorem c04_code_write_equiv : forall m e input avail out0,
   sized_fits m avail input ->
   wr_rel avail out0 (gen_bw_write m e input avail out0) (writer_write {| w_mode := m; w_ended := e |} input avail).
@@ -357,7 +357,7 @@ Print Assumptions c04_code_nonvacuous.
     [gen_call_direct_write]; request analysis and prelude writing are abstracted into a flag and a result parameter,
     [self.state.writer] is flattened into its fields), correspond to the model's [call_write_body] (after analysis) and
     [call_direct_write] (proofs/Gen2_equiv_call2.v): same refusal, same writer afterwards, same counts, same bytes. *)
-From Hoot.proofs Require Import Gen2_equiv_call2.
+From Hoot.proofs Require Import Gen2_equiv_call2_write.
 Theorem c04_code_call_write : forall c1 input cap,
   is_prelude (c_phase c1) = false ->
   sized_fits (w_mode (c_writer c1)) cap input ->
